@@ -6,6 +6,18 @@ From Quill Require Queue.UQDefs.
 From Quill Require Backend.Ord.
 Import ListNotations.
 Local Open Scope N_scope.
+From Quill Require TieBE ExpectedBE.
+
+(* T-src: the BackendWorker methods this property's part of M-BE re-states are, statement by statement, the ones the model
+   was written against and compared with (ExpectedBE.v; the whole loop is tied in Properties_C03.C03_tie_backend_loop) *)
+Theorem C05_tie_backend_methods :
+  QuillGen.SrcFacts.sk_be_populate_transit_events_from_frontend_queues = Quill.ExpectedBE.sk_be_populate_transit_events_from_frontend_queues /\
+  QuillGen.SrcFacts.sk_be_populate_transit_event_from_frontend_queue = Quill.ExpectedBE.sk_be_populate_transit_event_from_frontend_queue /\
+  QuillGen.SrcFacts.sk_behas_pending_events_for_caching_when_transit_event_buffer_empty = Quill.ExpectedBE.sk_behas_pending_events_for_caching_when_transit_event_buffer_empty /\
+  QuillGen.SrcFacts.sk_be_process_lowest_timestamp_transit_event = Quill.ExpectedBE.sk_be_process_lowest_timestamp_transit_event /\
+  QuillGen.SrcFacts.sk_be_poll = Quill.ExpectedBE.sk_be_poll.
+Proof. exact (conj TieBE.src_be_populate_transit_events_from_frontend_queues (conj TieBE.src_be_populate_transit_event_from_frontend_queue (conj TieBE.src_behas_pending_events_for_caching_when_transit_event_buffer_empty (conj TieBE.src_be_process_lowest_timestamp_transit_event TieBE.src_be_poll)))). Qed.
+Print Assumptions C05_tie_backend_methods.
 
 (* T-src: in the source the thread-context cache is refreshed again after ts_now is read *)
 Theorem C05_tie_refresh_after_clock : QuillGen.SrcFacts.be_refresh_after_clock = true.
